@@ -672,9 +672,9 @@ where
 /// global budget so that parallel workers do not hold tens of GiB at once
 pub fn with_memory_budget<T>(bytes: usize, f: impl FnOnce() -> T) -> T {
     use std::sync::{Condvar, Mutex};
-    static BUDGET: Mutex<usize> = Mutex::new(10 << 30);
+    static BUDGET: Mutex<usize> = Mutex::new(28 << 30);
     static CV: Condvar = Condvar::new();
-    let want = bytes.min(10 << 30);
+    let want = bytes.min(28 << 30);
     {
         let mut g = BUDGET.lock().unwrap();
         while *g < want {
